@@ -66,3 +66,4 @@ pub fn mmapper_is_mapped(addr: crate::util::Address) -> bool {
     crate::MMAPPER.is_mapped_address(addr)
 }
 pub mod c35;
+pub mod c37;
